@@ -9,7 +9,7 @@ from .common import coq_bool, coq_list, coq_option
 
 PID = "C03"
 PROPS_FILE = "props/C03.v"
-MODEL_TARGETS = ["model/Fresh.vo"]
+MODEL_TARGETS = ["model/Fresh.vo", "model/FreshSkip.vo"]
 RULE = ("(1) stamps: random histories of record_run_started/record_run_stopped(ok)/build_completed over 2-6 step ids "
         "with a scripted time.monotonic_ns (repeated readings frequent) on the real Scheduler versus "
         "Fresh.brun (functions generated from scheduler.py), comparing both dictionaries and every (producer, "
@@ -58,8 +58,8 @@ def generate(ctx):
 # ---------------------------------------------------------------------------------------------
 
 HEADER = ("From Coq Require Import List NArith Bool.\nImport ListNotations.\n"
-          "From SV Require Import lib.StampMap gen.GenFresh model.Fresh.\nOpen Scope N_scope.\n"
-          "Definition no : option (result * cobs) := None.\n"
+          "From SV Require Import lib.StampMap gen.GenFresh model.Fresh model.FreshSkip.\nOpen Scope N_scope.\n"
+          "Definition no : option (xres * xobs) := None.\n"
           "Fixpoint bools_eqb (a b : list bool) : bool := match a, b with [] , [] => true"
           " | x :: a', y :: b' => Bool.eqb x y && bools_eqb a' b' | _, _ => false end.\n"
           "Fixpoint prefixes_ok (keys : list N) (pairs : list (N * N)) (b : book)"
@@ -206,7 +206,15 @@ def gen_case(rng, big=False):
         bad = [p for p, k in files.items() if k in ("planned", "outdated", "unconf", "missing")]
         if bad:
             initial = sorted(set(initial + [rng.choice(bad)]))
-    static_owner = {p: rng.choice(["plan", "q"]) for p, k in files.items() if k in ("conf", "unconf", "unconf_absent", "missing")}
+    static_owner = {p: rng.choice(["plan", "q"]) if p not in initial or rng.random() < 0.25 else "plan"
+                    for p, k in files.items() if k in ("conf", "unconf", "unconf_absent", "missing")}
+    # a case aimed at validate_dynamic_job: c amends a static file declared by q, which is withdrawn
+    # (or vanishes) once c holds a stored hash
+    vfile = None
+    if rng.random() < 0.35:
+        vfile = "f90.txt"
+        files[vfile] = "conf"
+        static_owner[vfile] = "q"
     variant = [1]
 
     def nv():
@@ -244,8 +252,36 @@ def gen_case(rng, big=False):
                 acts.append(["newphase"])
         return acts
 
+    def again():
+        """Actions that make a completed c dispatchable again (it then holds a stored hash)."""
+        acts = []
+        if rng.random() < 0.45:
+            acts.append(["newphase"])
+        r = rng.random()
+        if r < 0.12:
+            acts.append(["wout", 0 if rng.random() < 0.5 else nv()])
+        elif r < 0.20 and prod:
+            acts.append(["produce", rng.choice(prod), True, nv()])
+        elif r < 0.28:
+            p = rng.choice(allp)
+            if files[p] != "volatile":
+                acts.append(["write", p, 0 if rng.random() < 0.2 else nv()])
+        elif r < 0.33:
+            acts.append(["setenv", rng.choice(["e0", "e1", "e2"])])
+        elif r < 0.36:
+            acts.append(["delhash"])
+        elif r < 0.50:
+            acts.append(["withdraw"])            # amended inputs declared by q become detached
+        elif r < 0.58 and statics:
+            p = rng.choice(statics)              # a static (possibly amended) input vanishes and is re-checked
+            acts += [["write", p, 0], ["confirm", p]]
+        if rng.random() < 0.5:                   # producers that were left running finish
+            acts += [["pfinish", p, True, nv()] for p in initial if files[p] in ("built", "planned", "outdated")]
+        acts.append(rng.choice([["repend"], ["repend"], ["outcheck"]]))
+        return acts
+
     runs = []
-    for _ in range(rng.randint(1, 4)):
+    for _ in range(rng.randint(1, 6 if big else 5)):
         during = []
         for _ in range(rng.randint(0, 5)):
             if rng.random() < 0.5:
@@ -262,10 +298,43 @@ def gen_case(rng, big=False):
                 before.append(["produce", rng.choice(prod), True, nv()])
             elif statics:
                 before.append(["confirm", rng.choice(statics)])
-        runs.append({"before": before, "during": during,
-                     "rc": 0 if rng.random() < 0.85 else 1, "write_out": rng.random() < 0.9})
+        if runs and rng.random() < 0.75:
+            before += again()
+        chk_during = []
+        for _ in range(rng.choice([0, 0, 0, 1, 2])):
+            r = rng.random()
+            if r < 0.35:
+                chk_during.append(["wout", 0 if rng.random() < 0.4 else nv()])
+            elif r < 0.6:
+                p = rng.choice(allp)
+                if files[p] != "volatile":
+                    chk_during.append(["write", p, 0 if rng.random() < 0.2 else nv()])
+            else:
+                chk_during += env(1, True)
+        cancel = []
+        if rng.random() < 0.08:
+            cancel.append(rng.choice(["new_run", "out", "end"]))
+        runs.append({"before": before, "during": during, "chk_during": chk_during, "cancel": cancel,
+                     "rc": 0 if rng.random() < 0.9 else 1, "write_out": rng.random() < 0.93})
+    if vfile is not None:
+        while len(runs) < 3:
+            runs.append({"before": [], "during": [], "chk_during": [], "cancel": [], "rc": 0, "write_out": True})
+        first = [["amend", [vfile]]]
+        if rng.random() < 0.4:
+            first.append(["withdraw"])           # already detached when the command returns: not in the stored hash
+        elif rng.random() < 0.3:
+            first += [["write", vfile, 0], ["confirm", vfile]]
+        if rng.random() < 0.6:
+            runs[0]["during"] = first + [a for a in runs[0]["during"] if a[0] != "amend"]
+            runs[0]["rc"], runs[0]["write_out"] = 0, True
+        else:
+            runs[0]["during"] = first + runs[0]["during"]
+        gone = rng.choice([[["withdraw"]], [["write", vfile, 0], ["confirm", vfile]], []])
+        runs[1]["before"] = runs[1]["before"] + gone + [["repend"]]
+        runs[2]["before"] = runs[2]["before"] + rng.choice([[["repend"]], [["redeclare", vfile], ["confirm", vfile], ["repend"]],
+                                                            [["write", vfile, nv()], ["redeclare", vfile], ["confirm", vfile]], []])
     return {"files": files, "initial": initial, "static_owner": static_owner, "cap": rng.randint(1, 3),
-            "keep_going": rng.random() < 0.3, "runs": runs}
+            "keep_going": rng.random() < 0.3, "explain": rng.random() < 0.6, "runs": runs}
 
 
 def coq_frow(r):
@@ -274,9 +343,18 @@ def coq_frow(r):
             f"{coq_option(prod, str)} {coq_bool(tree)})")
 
 
+def coq_pairs(l):
+    return coq_list([f"({a}, {b})" for a, b in l])
+
+
+def coq_shash(hi):
+    return f"(mkSH {hi['env']} {coq_pairs(hi['inp'])} {coq_pairs(hi['out'])})"
+
+
 def coq_obs(o):
-    return (f"(mkObs {o['state']} {coq_bool(o['deferred'])} {o['dc']} {coq_bool(o['draining'])} "
+    base = (f"(mkObs {o['state']} {coq_bool(o['deferred'])} {o['dc']} {coq_bool(o['draining'])} "
             f"{coq_smap(o['starts'])} {coq_smap(o['stops'])} {coq_list([str(x) for x in o['dyn']])})")
+    return f"(mkXObs {base} {coq_bool(o['has_hash'])} {coq_option(o['hash'], coq_shash)})"
 
 
 def coq_nlist(l):
@@ -294,31 +372,44 @@ def coq_event(kind, payload, exp):
         e = f"EBk ({coq_bev(payload)})"
     elif kind == "EDrain":
         e = f"EDrain {coq_bool(payload)}"
-    elif kind == "ETry":
-        e = f"ETry {payload}"
     elif kind == "EAmend":
         e = f"EAmend {coq_nlist(payload)}"
-    elif kind == "EEnd":
-        e = f"EEnd {payload[0]} {coq_bool(payload[1])}"
+    elif kind == "XEnvC":
+        e = f"XEnvC {payload}"
+    elif kind == "XHashDel":
+        e = "XHashDel"
+    elif kind == "XTry":
+        e = f"XTry {payload[0]} {coq_bool(payload[1])}"
+    elif kind == "XChk":
+        e = f"XChk {payload[0]} {coq_bool(payload[1])}"
+    elif kind == "XEnd":
+        e = f"XEnd {payload[0]} {coq_bool(payload[1])} {coq_bool(payload[2])}"
     else:
         raise ValueError(kind)
+    if not kind.startswith("X"):
+        e = f"XE ({e})"
     if exp is None:
         return f"({e}, no)"
-    if exp[0] == "RTry":
-        r = f"RTry {coq_bool(exp[1])}"
+    if exp[0] == "XRTry":
+        r = f"XRTry {exp[1]} {coq_bool(exp[2])}"
     elif exp[0] == "RAmend":
-        r = f"RAmend {coq_bool(exp[1])} {coq_nlist(exp[2])} {coq_nlist(exp[3])} {coq_bool(exp[4])}"
+        r = f"XRBase (RAmend {coq_bool(exp[1])} {coq_nlist(exp[2])} {coq_nlist(exp[3])} {coq_bool(exp[4])})"
+    elif exp[0] == "XRChk":
+        r = f"XRChk {coq_bool(exp[1])}"
+    elif exp[0] == "XREnd":
+        r = "XREnd"
     else:
-        r = "REnd"
+        raise ValueError(exp[0])
     return f"({e}, Some ({r}, {coq_obs(exp[-1])}))"
 
 
 def coq_case(case):
     spec = case.spec
     init = [case.paths.index(p) + 1 for p in spec["initial"]]
-    w0 = f"(world0 {case.cid} {coq_nlist(init)} {spec['cap']} {coq_bool(spec['keep_going'])})"
+    w0 = (f"(xworld0 {case.cid} {coq_nlist(init)} [{len(case.paths) + 1}] {spec['cap']} "
+          f"{coq_bool(spec['keep_going'])} {case.env0})")
     tr = coq_list([coq_event(*t) for t in case.trace])
-    return f"check_trace {coq_nlist(case.keys)} {w0} {tr}"
+    return f"xcheck_trace {coq_nlist(case.keys)} {w0} {tr}"
 
 
 # ---------------------------------------------------------------------------------------------
@@ -348,12 +439,28 @@ def oracle_case(ctx, case, fails):
     spec = case.spec
     for r in case.runs:
         if not r.get("started"):
-            if r.get("dispatched") and not r.get("started"):
+            if r.get("dispatched") and r.get("kind", 1) != 1:
+                checking_oracle(case, r, fails)
+            elif r.get("dispatched") and "new_run" in r.get("cancel", ()):
+                # the hash computation of _new_run was cancelled: FAILED, hash gone, drain unless keep_going
+                if r["state"] != S_FAILED or r["has_hash"] or (not r["draining"] and not spec["keep_going"]):
+                    fails.append(("oracle:cancel:new-run:not-failed",
+                                  f"cancelled input hashing but state={r['state']} has_hash={r['has_hash']} "
+                                  f"draining={r['draining']}", r))
+            elif r.get("dispatched"):
                 # the pre-run check refused to start: must be FAILED and draining
                 if r["state"] != S_FAILED or not r["draining"]:
                     fails.append((f"oracle:prerun-change:not-failed-and-draining",
                                   f"pre-run input check failed but state={r['state']} draining={r['draining']}", r))
             continue
+        if "end" in r.get("cancel", ()) and (r["state"] == S_SUCCEEDED or r["has_hash"]):
+            fails.append(("oracle:cancel:post-run:succeeded",
+                          f"the post-run hash computation was cancelled but state={r['state']} has_hash={r['has_hash']}",
+                          {k: v for k, v in r.items() if k != "amend_verdicts"}))
+        if (r["state"] == S_SUCCEEDED) != bool(r["has_hash"]):
+            fails.append(("oracle:hash-stored-iff-succeeded",
+                          f"after the command: state={r['state']} has_hash={r['has_hash']}",
+                          {k: v for k, v in r.items() if k != "amend_verdicts"}))
         state = r["state"]
         # --- amended inputs that the property calls unavailable or unfresh
         must_defer = False
@@ -438,6 +545,64 @@ def oracle_case(ctx, case, fails):
         # (checked through final_inputs of a SUCCEEDED run above and by the dispatch oracle below)
 
 
+def checking_oracle(case, r, fails):
+    """A job for a step that holds a stored hash (try_skip_job = kind 2, validate_dynamic_job = kind 3),
+    judged from the driver's own observations: the digests are recomputed with hash.StepHash from
+    files hashed afresh by the driver at the moments the job hashed them (inputs at dispatch, outputs
+    at the end of the window), independent of executor.py and of the model."""
+    from stepup.core.hash import StepHash
+    chk, kind, state, tags = r["chk"], r["kind"], r["state"], r["tags"]
+    stored = chk["stored"]
+    ev = {"kind": kind, "state": state, "tags": tags, "cancel": r["cancel"], "inputs": chk["inputs"],
+          "has_hash": r["has_hash"], "draining": r["draining"]}
+    if "START" in tags:
+        fails.append(("oracle:checking:command-started", f"a {'SKIP' if kind == 2 else 'VALIDATE_DYNAMIC'} job "
+                      f"started the command (events {tags})", ev))
+    avail = [(p, st, dyn) for p, st, dyn in chk["inputs"] if st in (F_BUILT, F_CONFIRMED)]
+    all_available = len(avail) == len(chk["inputs"])
+    changed = [p for p, st, dyn in avail if chk["inp_now"][p] != chk["inp_rec"][p]]
+    new = StepHash.from_inp(chk["label"], {p: chk["inp_now"][p] for p, _, _ in avail}, chk["env_now"],
+                            explained=False, shell=chk["shell"], env_overrides=chk["overrides"])
+    inp_same = new.inp_digest == stored.inp_digest
+    out_same = outs_exist = None
+    if "out_now" in chk:
+        out_same = new.with_out_hashes(chk["out_now"]).out_digest == stored.out_digest
+        outs_exist = all(not fh.is_unknown for fh in chk["out_now"].values())
+    ev.update({"changed": changed, "inp_same": inp_same, "out_same": out_same, "outs_exist": outs_exist})
+    cancelled = "new_run" in r["cancel"] or ("out" in r["cancel"] and r["chk_started"])
+    if state == S_SUCCEEDED:
+        if kind == 3:
+            fails.append(("oracle:validate:succeeded", "validate_dynamic_job left the step SUCCEEDED", ev))
+        if cancelled:
+            fails.append(("oracle:cancel:checking:succeeded", "a cancelled hash computation left the step SUCCEEDED", ev))
+        if not inp_same or changed or not all_available:
+            fails.append(("oracle:skip:succeeded-with-input-differing-from-stored-hash",
+                          f"the step was recorded SUCCEEDED by a skip although its inputs on disk (changed vs record: "
+                          f"{changed}, all available: {all_available}) do not have the stored input digest", ev))
+        if out_same is not True or not outs_exist:
+            fails.append(("oracle:skip:succeeded-with-output-differing-from-stored-hash",
+                          f"the step was recorded SUCCEEDED by a skip although its outputs on disk do not have the "
+                          f"stored output digest (out_same={out_same}, outs_exist={outs_exist})", ev))
+        if not r["has_hash"]:
+            fails.append(("oracle:skip:succeeded-without-hash", "SUCCEEDED by a skip but no stored hash", ev))
+        return
+    if cancelled:
+        if state != S_FAILED or r["has_hash"]:
+            fails.append(("oracle:cancel:checking:not-failed", f"cancelled hash computation: state={state} "
+                          f"has_hash={r['has_hash']}", ev))
+        return
+    if changed:
+        if state != S_FAILED or not r["draining"] or r["has_hash"]:
+            fails.append(("oracle:checking:changed-input:not-failed-and-draining",
+                          f"inputs {changed} differ from their record but state={state} draining={r['draining']}", ev))
+        return
+    if not inp_same or (kind == 2 and out_same is False):
+        if state != S_PENDING or r["has_hash"] or r["n_dyn"] != 0 or r["deferred"]:
+            fails.append(("oracle:checking:digest-mismatch-not-reset",
+                          f"a digest differs from the stored one but the step was not reset to PENDING without hash "
+                          f"and amended inputs: state={state} has_hash={r['has_hash']} n_dyn={r['n_dyn']}", ev))
+
+
 def dispatch_oracle(ctx, case, fails):
     """Every run that started: the declared inputs were attached BUILT/CONFIRMED with the on-disk
     content at that moment (from the trace: the last ERow / EWrite before the ETry)."""
@@ -447,7 +612,7 @@ def dispatch_oracle(ctx, case, fails):
             rows[payload[0]] = payload[1]
         elif kind == "EWrite":
             disk[payload[0]] = payload[1]
-        elif kind == "ETry" and exp[1]:
+        elif kind == "XTry" and exp[1] == 1 and exp[2]:
             for p in case.spec["initial"]:
                 i = case.paths.index(p) + 1
                 ex, st, h, det, hc, prod, tree = rows[i]
@@ -477,8 +642,11 @@ def run_consumer_cases(ctx, n, big=False, specs=None):
             any(len(s["during"]) > 0 for s in spec["runs"])
         ctx.case(("consumer", json.dumps(spec, sort_keys=True)), nontrivial=nontriv)
         for r in case.runs:
+            k = r.get("kind", 1)
             ctx.count("run:" + ("not-dispatched" if not r.get("dispatched") else
-                                "refused-at-start" if not r.get("started") else f"ended-{r['state']}"))
+                                f"{ {1: 'execute', 2: 'try_skip', 3: 'validate'}[k] }-" +
+                                ("refused-at-start" if k == 1 and not r.get("started") else f"ended-{r['state']}") +
+                                ("-cancelled" if r.get("cancel") else "")))
             for v in r.get("amend_verdicts", []):
                 ctx.count("amend:" + ("rejected" if v["rejected"] else "carry_on" if v["carry_on"] else "defer"))
         checks.append(coq_case(case))
